@@ -322,6 +322,8 @@ class FromField(Metric):
         if axis_pos is not None:
             I = np.where(interval.within(values_array[axis_pos]))[0]
             values = values[I]
+            if len(values) == 0:
+                return np.nan
 
         return self.aggregator(values)
 
